@@ -132,6 +132,138 @@ def fill(rng, kind, shape, bits):
     raise KeyError(kind)
 
 
+def same_result(got, want):
+    if isinstance(want, (tuple, list)):
+        return isinstance(got, (tuple, list)) and len(got) == len(want) and all(same_result(g, w) for g, w in zip(got, want))
+    if hasattr(got, "unpack") and hasattr(got, "_bits"):
+        got = got.unpack()
+    if not isinstance(want, torch.Tensor):
+        return (not isinstance(got, torch.Tensor)) and got == want
+    if not isinstance(got, torch.Tensor):
+        return False
+    return tuple(got.shape) == tuple(want.shape) and got.dtype == want.dtype and torch.equal(got, want)
+
+
+def describe(v):
+    if isinstance(v, (tuple, list)):
+        return [describe(x) for x in v][:4]
+    if isinstance(v, torch.Tensor):
+        return dict(type=type(v).__name__, shape=list(v.shape), dtype=str(v.dtype))
+    return repr(v)[:40]
+
+
+def op_pool(r, tc):
+    """Programs over one uint8 tensor; every dimension argument is drawn over the whole legal range -ndim..ndim-1."""
+    import copy
+
+    nd = tc.ndim
+    d = int(r.integers(-nd, nd))
+    d2 = int(r.integers(-nd, nd))
+    n = tc.shape[d]
+    s = int(r.integers(0, n))
+    ln = int(r.integers(1, n - s + 1))
+    step = int(r.integers(1, 4))
+    idx = torch.from_numpy(r.integers(0, n, size=int(r.integers(1, 5))))
+    i0 = int(r.integers(-tc.shape[0], tc.shape[0]))
+    other = tc.flip(0)
+    mask = tc > int(r.integers(0, 3))
+    return {
+        "narrow": lambda a: a.narrow(d, s, ln),
+        "aten_slice": lambda a: torch.ops.aten.slice(a, d, s, s + ln),
+        "aten_slice_step": lambda a: torch.ops.aten.slice(a, d, s, n, step),
+        "aten_slice_open": lambda a: torch.ops.aten.slice(a, d, s),
+        "select": lambda a: a.select(d, s),
+        "diff": lambda a: torch.diff(a, dim=d),
+        "flip": lambda a: a.flip(d),
+        "roll": lambda a: a.roll(s, d),
+        "cumsum": lambda a: a.cumsum(d),
+        "sum_dim": lambda a: a.sum(d),
+        "amax": lambda a: a.amax(d),
+        "argmax": lambda a: a.argmax(d),
+        "transpose": lambda a: a.transpose(d, d2),
+        "movedim": lambda a: a.movedim(d, d2),
+        "unsqueeze": lambda a: a.unsqueeze(d),
+        "chunk": lambda a: a.chunk(2, d),
+        "split": lambda a: a.split(ln, d),
+        "tensor_split": lambda a: a.tensor_split(2, d),
+        "index_select": lambda a: a.index_select(d, idx),
+        "unbind": lambda a: a.unbind(d),
+        "repeat_interleave": lambda a: a.repeat_interleave(2, d),
+        "sort": lambda a: a.sort(d, stable=True)[0],
+        "cat_dim": lambda a: torch.cat([a, a], d),
+        "cat_plain": lambda a: torch.cat([a, other], d),
+        "stack": lambda a: torch.stack([a, a], d),
+        "count_nonzero": lambda a: a.count_nonzero(d),
+        "any_dim": lambda a: (a > 0).any(d),
+        "gather": lambda a: a.gather(d, torch.zeros_like(tc, dtype=torch.int64)),
+        "getitem_int": lambda a: a[i0],
+        "getitem_ellipsis": lambda a: a[..., -1] if nd > 1 else a[-1],
+        "getitem_step": lambda a: a[::step],
+        "getitem_negslice": lambda a: a[-ln:],
+        "getitem_range": lambda a: a[s:s + ln] if d in (0, -nd) else a[:, 0:1] if nd > 1 else a[0:1],
+        "getitem_idx": lambda a: a[torch.tensor([0, tc.shape[0] - 1])],
+        "getitem_mask": lambda a: a[mask],
+        "flatten": lambda a: a.flatten(),
+        "view": lambda a: a.view(-1),
+        "permute": lambda a: a.permute(*reversed(range(nd))),
+        "mT": lambda a: a.mT if nd >= 2 else a.clone(),
+        "expand": lambda a: a.unsqueeze(0).expand(2, *a.shape),
+        "squeeze": lambda a: a.squeeze(),
+        "contiguous": lambda a: a.contiguous(),
+        "where": lambda a: torch.where(mask, a, torch.zeros_like(tc)),
+        "minimum": lambda a: torch.minimum(a, other),
+        "maximum_rev": lambda a: torch.maximum(other, a),
+        "rshift": lambda a: a >> 1,
+        "floordiv": lambda a: a // 2,
+        "rem": lambda a: a % 2,
+        "sub": lambda a: a - 1,
+        "radd": lambda a: 1 + a,
+        "bitor": lambda a: a | other,
+        "bitxor": lambda a: a ^ 1,
+        "clamp": lambda a: a.clamp(1, 2),
+        "masked_fill": lambda a: a.masked_fill(mask, 0),
+        "max": lambda a: a.max(),
+        "min_item": lambda a: a.min().item(),
+        "sum_item": lambda a: a.sum().item(),
+        "nonzero": lambda a: a.nonzero(),
+        "unique": lambda a: a.unique(),
+        "equal": lambda a: torch.equal(a, tc),
+        "equal_other": lambda a: torch.equal(a, other),
+        "ne": lambda a: a != other,
+        "zeros_like": lambda a: torch.zeros_like(a),
+        "ones_like": lambda a: torch.ones_like(a),
+        "copy_into_plain": lambda a: torch.empty_like(tc).copy_(a),
+        "tril": lambda a: a.tril(),
+        "int": lambda a: a.int(),
+        "bool": lambda a: a.bool(),
+        "numpy": lambda a: torch.from_numpy(a.numpy()),
+        "deepcopy": lambda a: copy.deepcopy(a),
+        "len": lambda a: len(a),
+        "iter": lambda a: list(a),
+        "size_numel": lambda a: (tuple(a.size()), a.numel(), a.dim(), str(a.dtype)),
+        "matmul_onehot": lambda a: a.reshape(a.shape[0], -1).t() @ torch.ones(a.shape[0], 1, dtype=torch.uint8),
+    }
+
+
+def inplace_pool(r, tc):
+    """In-place programs whose results still fit in the packed width."""
+    mask = tc > 0
+    other = tc.flip(0).clone()
+    i0 = int(r.integers(-tc.shape[0], tc.shape[0]))
+    return {
+        "zero_": lambda a: a.zero_(),
+        "fill_1": lambda a: a.fill_(1),
+        "mul_0": lambda a: a.mul_(0),
+        "bitand_1": lambda a: a.bitwise_and_(1),
+        "clamp_01": lambda a: a.clamp_(0, 1),
+        "copy_": lambda a: a.copy_(other),
+        "setitem_row": lambda a: a.__setitem__(i0, 1),
+        "masked_fill_": lambda a: a.masked_fill_(mask, 0),
+        "iand": lambda a: a.__iand__(1),
+        "floor_divide_": lambda a: a.floor_divide_(2),
+    }
+
+
 def run(ctx):
     import optimum.quanto as oq
     from optimum.quanto.library import ops as qops
@@ -268,6 +400,59 @@ def run(ctx):
             if tuple(got.shape) != tuple(want.shape) or got.dtype != want.dtype or not torch.equal(got, want):
                 ctx.violation(dict(kind="packed_op_acts_on_payload", op=name, bits=bits),
                               dict(desc=desc, got_shape=list(got.shape), want_shape=list(want.shape)))
+        # a random draw from a wide pool of tensor operations, every legal dimension argument included (negative ones too)
+        r = ctx.crng
+        pool = op_pool(r, tc)
+        names = sorted(pool)
+        for name in [names[int(j)] for j in r.permutation(len(names))[:12]]:
+            f = pool[name]
+            try:
+                want = f(tc.clone())
+            except Exception:
+                continue  # not a legal program for this shape
+            Pc = PackedTensor(P._data.clone(), bits, P.size(), P.stride())
+            try:
+                got = f(Pc)
+            except ValueError as e:
+                if name in ("int", "bool") and "uint8 only" in str(e):
+                    ctx.count("documented_refusals")
+                    continue
+                ctx.violation(dict(kind="packed_op_raises", op=name, exc=type(e).__name__), dict(desc=desc, msg=str(e)[:200]))
+                continue
+            except Exception as e:
+                ctx.violation(dict(kind="packed_op_raises", op=name, exc=type(e).__name__), dict(desc=desc, msg=str(e)[:200]))
+                continue
+            ctx.count("packed_ops")
+            ctx.count("packed_ops:pool")
+            ctx.see("pool_ops", name)
+            if not same_result(got, want):
+                ctx.violation(dict(kind="packed_op_acts_on_payload", op=name, bits=bits),
+                              dict(desc=desc, got=describe(got), want=describe(want)))
+        # in-place operations whose results fit in `bits` bits: the packed destination must hold the new values afterwards
+        ipool = inplace_pool(r, tc)
+        inames = sorted(ipool)
+        for name in [inames[int(j)] for j in r.permutation(len(inames))[:2]]:
+            f = ipool[name]
+            plain = tc.clone()
+            try:
+                f(plain)
+            except Exception:
+                continue
+            Pc = PackedTensor(P._data.clone(), bits, P.size(), P.stride())
+            try:
+                f(Pc)
+            except Exception as e:
+                ctx.violation(dict(kind="packed_op_raises", op=name, exc=type(e).__name__), dict(desc=desc, msg=str(e)[:200]))
+                continue
+            ctx.count("packed_ops")
+            ctx.count("packed_ops:inplace")
+            after = Pc.unpack()
+            if torch.equal(plain, tc):
+                continue  # the program changed nothing on the plain tensor either
+            if not (tuple(after.shape) == tuple(plain.shape) and torch.equal(after, plain)):
+                mech = "packed_destination_left_unchanged" if torch.equal(after, tc) else "other"
+                ctx.violation(dict(kind="packed_inplace_op_not_applied", mechanism=mech),
+                              dict(desc=desc, op=name))
         try:
             P.to(torch.float32)
             ctx.violation(dict(kind="packed_dtype_change_not_refused"), dict(desc=desc))
